@@ -823,9 +823,9 @@ Proof. intros es es' H. unfold sends_unique in *. rewrite send_ids_app in H. exa
 Lemma inv_init : Inv s_init.
 Proof.
   unfold Inv, s_init, Core. cbn [s_seq s_reqs s_lock s_lockq map rget]. split4.
-  - split5; try constructor.
-    + intros id [].
-    + intros id r H. discriminate.
+  - split5; [constructor | constructor | constructor | |].
+    + intros i [].
+    + intros i r H. discriminate.
   - discriminate.
   - intros id r H. discriminate.
   - reflexivity.
@@ -1002,4 +1002,190 @@ Proof.
   destruct (q_confirmed r) eqn:Hc; [destruct H as [H|[]]; discriminate|].
   destruct (q_stage r) eqn:Hs; try (destruct H; fail).
   apply done_in_end_req in H. destruct H as [E _]. symmetry. exact E.
+Qed.
+
+Theorem no_residue : forall st e id o, In (XDone id o) (snd (sstep st e)) -> o <> ResDuplicateTag ->
+  NoDup (map q_id (s_reqs st)) ->
+  rget id (s_reqs (fst (sstep st e))) = None /\ ~ In id (s_lockq (fst (sstep st e))).
+Proof.
+  intros st e id o H Ho Hnd.
+  destruct e as [i k dst nsetup | i res | dst tag ok | i | i]; cbn [sstep] in H |- *.
+  - exfalso. destruct (rfind_tag dst ((s_seq st + 1) mod 256) (s_reqs st)).
+    + destruct H as [H|[]]. injection H as _ <-. apply Ho. reflexivity.
+    + exact (done_in_want_lock _ _ _ _ H).
+  - destruct (rget i (s_reqs st)) as [r1|] eqn:Hg1; [|destruct H].
+    destruct (q_stage r1) eqn:Hs; try (destruct H; fail).
+    + exfalso. destruct (1 <? nleft); destruct H as [H|[]]; discriminate.
+    + destruct res.
+      * destruct (q_kind r1) eqn:Hk1;
+          try (apply done_in_end_req in H; destruct H as [-> _]; apply end_req_clean; exact Hnd).
+        destruct (q_confirmed r1) as [b|] eqn:Hc.
+        { apply done_in_end_req in H. destruct H as [-> _]. apply end_req_clean. exact Hnd. }
+        { exfalso. rewrite let_pair_eta in H. exact (done_in_unlock _ _ _ H). }
+      * exfalso. exact (done_in_unlock _ _ _ H).
+      * apply done_in_end_req in H. destruct H as [-> _]. apply end_req_clean. exact Hnd.
+  - destruct (rfind_tag dst tag (s_reqs st)) as [r1|] eqn:Hf; [|destruct H as [H|[]]; discriminate].
+    destruct (q_confirmed r1) eqn:Hc; [destruct H as [H|[]]; discriminate|].
+    destruct (q_stage r1) eqn:Hs; try (destruct H; fail).
+    rewrite (end_req_rset st _ r1) in H |- * by reflexivity.
+    apply done_in_end_req in H. destruct H as [-> _]. apply end_req_clean. exact Hnd.
+  - destruct (rget i (s_reqs st)) as [r1|] eqn:Hg1; [|destruct H].
+    destruct (q_stage r1) eqn:Hs; try (destruct H; fail).
+    + destruct (q_attempt r1 <? nretries).
+      * exfalso. exact (done_in_want_lock _ _ _ _ H).
+      * apply done_in_end_req in H. destruct H as [-> _]. apply end_req_clean. exact Hnd.
+    + apply done_in_end_req in H. destruct H as [-> _]. apply end_req_clean. exact Hnd.
+  - destruct (rget i (s_reqs st)) as [r1|] eqn:Hg1; [|destruct H].
+    apply done_in_end_req in H. destruct H as [-> _]. apply end_req_clean. exact Hnd.
+Qed.
+
+Theorem no_residue_reachable : forall es e id o, sends_unique es ->
+  In (XDone id o) (snd (sstep (sfinal es) e)) -> o <> ResDuplicateTag ->
+  rget id (s_reqs (fst (sstep (sfinal es) e))) = None /\ ~ In id (s_lockq (fst (sstep (sfinal es) e))).
+Proof.
+  intros es e id o Hu H Ho. apply (no_residue _ _ _ _ H Ho). exact (proj1 (proj1 (proj1 (sfinal_inv es Hu)))).
+Qed.
+
+Theorem all_done_all_clean : forall es, sends_unique es ->
+  s_reqs (sfinal es) = [] -> s_lock (sfinal es) = None /\ s_lockq (sfinal es) = [].
+Proof.
+  intros es Hu Hnil. destruct (sfinal_inv es Hu) as [((_ & _ & _ & C4 & _) & I2 & _ & _) _].
+  rewrite Hnil in *. split.
+  - destruct (s_lock (sfinal es)) as [h|]; [|reflexivity]. destruct (I2 h eq_refl) as [r [Hr _]]. discriminate.
+  - destruct (s_lockq (sfinal es)) as [|a q]; [reflexivity|]. destruct (C4 a (or_introl eq_refl)) as [r [Hr _]].
+    discriminate.
+Qed.
+
+Lemma is_cmd_inj : forall h id x, is_cmd h x -> is_cmd id x -> h = id.
+Proof.
+  intros h id x [H1|[k1 [d1 [t1 H1]]]] [H2|[k2 [d2 [t2 H2]]]]; subst x; try discriminate.
+  - injection H2 as ->. reflexivity.
+  - injection H2 as -> _ _ _. reflexivity.
+Qed.
+
+Lemma cmd_in_end_req : forall st r res id x, In x (snd (end_req st r res)) -> is_cmd id x ->
+  s_lock (fst (end_req st r res)) = Some id.
+Proof.
+  intros st r res id x H Hc. destruct (end_req_frame st r res) as (_ & _ & _ & _ & F5).
+  destruct (F5 _ H) as [E|[h [Hl Hc']]].
+  - subst x. exfalso. exact (is_cmd_not_done _ _ _ Hc).
+  - rewrite Hl, (is_cmd_inj _ _ _ Hc' Hc). reflexivity.
+Qed.
+
+Lemma cmd_in_unlock : forall st id x, In x (snd (unlock st)) -> is_cmd id x -> s_lock (fst (unlock st)) = Some id.
+Proof.
+  intros st id x H Hc. destruct (unlock_frame st) as (_ & _ & _ & U4). destruct (U4 _ H) as [h [Hl Hc']].
+  rewrite Hl, (is_cmd_inj _ _ _ Hc' Hc). reflexivity.
+Qed.
+
+Lemma cmd_in_want_lock : forall st r id x, In x (snd (want_lock st r)) -> is_cmd id x ->
+  s_lock (fst (want_lock st r)) = Some id.
+Proof.
+  intros st r id x H Hc. destruct (want_lock_frame st r) as (_ & _ & W3 & _). destruct (W3 _ H) as [Hl Hc'].
+  rewrite Hl, (is_cmd_inj _ _ _ Hc' Hc). reflexivity.
+Qed.
+
+(* commands are only ever issued by the request that holds the lock after the step *)
+Lemma commands_by_holder_st : forall st e id x, Inv st -> In x (snd (sstep st e)) -> is_cmd id x ->
+  s_lock (fst (sstep st e)) = Some id.
+Proof.
+  intros st e id x HI H Hc.
+  destruct e as [i k dst nsetup | i res | dst tag ok | i | i]; cbn [sstep] in H |- *.
+  - destruct (rfind_tag dst ((s_seq st + 1) mod 256) (s_reqs st)).
+    + destruct H as [H|[]]. subst x. exfalso. exact (is_cmd_not_done _ _ _ Hc).
+    + exact (cmd_in_want_lock _ _ _ _ H Hc).
+  - destruct (rget i (s_reqs st)) as [r1|] eqn:Hg1; [|destruct H].
+    destruct (q_stage r1) eqn:Hs; try (destruct H; fail).
+    + assert (Hl : s_lock st = Some i).
+      { destruct HI as (_ & _ & I3 & _). apply (I3 i r1 Hg1). rewrite Hs. reflexivity. }
+      destruct (1 <? nleft); destruct H as [H|[]]; subst x; cbn [fst set_reqs s_lock]; rewrite Hl; f_equal;
+        [apply (is_cmd_inj i id (XSetup i)) | apply (is_cmd_inj i id (XSendCmd i (q_kind r1) (q_dst r1) (q_tag r1)))];
+        try exact Hc; [left; reflexivity | right; exists (q_kind r1), (q_dst r1), (q_tag r1); reflexivity].
+    + destruct res.
+      * destruct (q_kind r1) eqn:Hk1; try exact (cmd_in_end_req _ _ _ _ _ H Hc).
+        destruct (q_confirmed r1) as [b|] eqn:Hcf; [exact (cmd_in_end_req _ _ _ _ _ H Hc)|].
+        rewrite let_pair_eta in H |- *. exact (cmd_in_unlock _ _ _ H Hc).
+      * exact (cmd_in_unlock _ _ _ H Hc).
+      * exact (cmd_in_end_req _ _ _ _ _ H Hc).
+  - destruct (rfind_tag dst tag (s_reqs st)) as [r1|] eqn:Hf;
+      [|destruct H as [H|[]]; subst x; exfalso; destruct Hc as [Hc|[k [d [t Hc]]]]; discriminate].
+    destruct (q_confirmed r1) eqn:Hcf;
+      [destruct H as [H|[]]; subst x; exfalso; destruct Hc as [Hc|[k [d [t Hc]]]]; discriminate|].
+    destruct (q_stage r1) eqn:Hs; try (destruct H; fail).
+    exact (cmd_in_end_req _ _ _ _ _ H Hc).
+  - destruct (rget i (s_reqs st)) as [r1|] eqn:Hg1; [|destruct H].
+    destruct (q_stage r1) eqn:Hs; try (destruct H; fail).
+    + destruct (q_attempt r1 <? nretries).
+      * exact (cmd_in_want_lock _ _ _ _ H Hc).
+      * exact (cmd_in_end_req _ _ _ _ _ H Hc).
+    + exact (cmd_in_end_req _ _ _ _ _ H Hc).
+  - destruct (rget i (s_reqs st)) as [r1|] eqn:Hg1; [|destruct H].
+    exact (cmd_in_end_req _ _ _ _ _ H Hc).
+Qed.
+
+Theorem commands_by_holder : forall es e id, sends_unique es ->
+  (In (XSetup id) (snd (sstep (sfinal es) e)) \/ exists k d t, In (XSendCmd id k d t) (snd (sstep (sfinal es) e))) ->
+  s_lock (fst (sstep (sfinal es) e)) = Some id.
+Proof.
+  intros es e id Hu H. pose proof (proj1 (sfinal_inv es Hu)) as HI. destruct H as [H|[k [d [t H]]]].
+  - apply (commands_by_holder_st _ _ _ _ HI H). left. reflexivity.
+  - apply (commands_by_holder_st _ _ _ _ HI H). right. exists k, d, t. reflexivity.
+Qed.
+
+Theorem setup_atomic : forall es e id, sends_unique es ->
+  (In (XSetup id) (snd (sstep (sfinal es) e)) \/ exists k d t, In (XSendCmd id k d t) (snd (sstep (sfinal es) e))) ->
+  s_lock (fst (sstep (sfinal es) e)) = Some id
+  \/ (exists o, In (XDone id o) (snd (sstep (sfinal es) e))).
+Proof. intros es e id Hu H. left. exact (commands_by_holder es e id Hu H). Qed.
+
+Lemma holding_cases : forall s, holding s = true <-> ((exists n, s = RSetup n) \/ s = RSend).
+Proof.
+  intros s. split.
+  - destruct s; intros H; try discriminate; [left; exists nleft; reflexivity | right; reflexivity].
+  - intros [[n ->]| ->]; reflexivity.
+Qed.
+
+Theorem lock_holder_in_progress : forall es h, sends_unique es -> s_lock (sfinal es) = Some h ->
+  exists r, rget h (s_reqs (sfinal es)) = Some r /\ ((exists n, q_stage r = RSetup n) \/ q_stage r = RSend).
+Proof.
+  intros es h Hu Hl. destruct (sfinal_inv es Hu) as [(_ & I2 & _ & _) _]. destruct (I2 h Hl) as [r [Hr Hh]].
+  exists r. split; [exact Hr | apply holding_cases; exact Hh].
+Qed.
+
+(* the holder is the only request in a holding stage; nobody waits for a free lock; waiters are distinct
+   requests in stage RLock; pending-table keys are unique *)
+Theorem holder_unique : forall es id r, sends_unique es -> rget id (s_reqs (sfinal es)) = Some r ->
+  ((exists n, q_stage r = RSetup n) \/ q_stage r = RSend) -> s_lock (sfinal es) = Some id.
+Proof.
+  intros es id r Hu Hg Hs. destruct (sfinal_inv es Hu) as [(_ & _ & I3 & _) _]. apply (I3 id r Hg).
+  apply holding_cases. exact Hs.
+Qed.
+
+Theorem free_lock_no_waiters : forall es, sends_unique es -> s_lock (sfinal es) = None -> s_lockq (sfinal es) = [].
+Proof. intros es Hu. destruct (sfinal_inv es Hu) as [(_ & _ & _ & I4) _]. exact I4. Qed.
+
+Theorem waiters_in_progress : forall es, sends_unique es ->
+  NoDup (s_lockq (sfinal es)) /\
+  forall id, In id (s_lockq (sfinal es)) -> exists r, rget id (s_reqs (sfinal es)) = Some r /\ q_stage r = RLock.
+Proof. intros es Hu. destruct (sfinal_inv es Hu) as [((_ & _ & C3 & C4 & _) & _) _]. split; assumption. Qed.
+
+Theorem pending_keys_unique : forall es r, sends_unique es -> In r (s_reqs (sfinal es)) ->
+  rget (q_id r) (s_reqs (sfinal es)) = Some r /\ rfind_tag (q_dst r) (q_tag r) (s_reqs (sfinal es)) = Some r.
+Proof.
+  intros es r Hu Hin. destruct (sfinal_inv es Hu) as [((C1 & C2 & _) & _) _].
+  split; [apply In_rget | apply rfind_tag_unique]; assumption.
+Qed.
+
+(* how a request in progress came to be what it is after one more event *)
+Theorem request_evolution : forall es e id r', sends_unique (es ++ [e]) ->
+  rget id (s_reqs (fst (sstep (sfinal es) e))) = Some r' ->
+  (rget id (s_reqs (sfinal es)) = None /\ (exists k d n, e = SSend id k d n) /\ q_confirmed r' = None /\ q_stage r' <> RConfirm)
+  \/ exists r, rget id (s_reqs (sfinal es)) = Some r /\
+       q_kind r' = q_kind r /\ (q_dst r', q_tag r') = (q_dst r, q_tag r) /\
+       (q_confirmed r' = q_confirmed r \/
+        (q_confirmed r = None /\ exists ok, q_confirmed r' = Some ok /\ e = SConfirm (q_dst r) (q_tag r) ok)) /\
+       (q_stage r' = RConfirm -> q_stage r = RConfirm \/ (q_stage r = RSend /\ e = SReply id EnqOk)).
+Proof.
+  intros es e id r' Hu H. destruct (reachable_step es e Hu) as [HI Hfresh].
+  exact (sstep_frame _ _ _ _ (proj1 (proj1 HI)) Hfresh H).
 Qed.
